@@ -8,6 +8,10 @@ _PLAIN = [chr(c) for c in list(range(0x20, 0x7F)) if chr(c) not in '"\\'] + ["é
 _HH = [0x00, 0x01, 0x0A, 0x22, 0x27, 0x41, 0x5C, 0x7F, 0x80, 0xFF]
 
 
+def _mixcase(hh, mode):
+    return [hh, hh.upper(), hh[0].upper() + hh[1], hh[0] + hh[1].upper()][mode]
+
+
 def literal(max_parts=8):
     """A valid string literal (text incl. quotes) built from the escape grammar."""
     part = st.one_of(
@@ -15,6 +19,9 @@ def literal(max_parts=8):
         st.sampled_from(_PLAIN),
         st.sampled_from(_HH).map(lambda h: "\\x%02x" % h),
         st.sampled_from(_HH).map(lambda h: "\\u00%02x" % h),
+        # any byte value, hex digits in either case (\xFC, \xaB, \u00E9)
+        st.tuples(st.integers(0, 255), st.integers(0, 3)).map(lambda t: "\\x" + _mixcase("%02x" % t[0], t[1])),
+        st.tuples(st.integers(0, 255), st.integers(0, 3)).map(lambda t: "\\u00" + _mixcase("%02x" % t[0], t[1])),
         st.sampled_from(["\\n", "\\r", "\\t", "\\\\", '\\"', "\\'"]),
         st.sampled_from(["#", ";", "{", "}", "set", " ", "//", "/*"]),
         # fragments that look like the pretty-printer's own layout (as_text post-processes spacing around { } ;)
